@@ -150,6 +150,38 @@ pub const DOMAIN_NUMBERS: &[f64] = &[
     6378137.0, 6356752.3142, 20200000.0, 26560000.0, 42164000.0, 0.5, 0.25, 0.1, 0.01, 0.001, 0.0001, 1.0, 2.0, 5.0,
 ];
 
+/// number of numeric leaves (pre-order)
+pub fn count_numeric(v: &mut V) -> usize {
+    let mut n = 0;
+    walk_mut(v, ("", ""), &mut |_, s, _| {
+        if s == Site::Int || s == Site::Float {
+            n += 1
+        }
+    });
+    n
+}
+
+/// push the `which`-th numeric leaf (pre-order) to the top or the bottom of its carrier type: the usual way a
+/// message comes to be refused part-way through encoding
+pub fn extreme_leaf(v: &mut V, which: usize, high: bool) {
+    let mut n = 0;
+    walk_mut(v, ("", ""), &mut |x, s, _| {
+        if s == Site::Int || s == Site::Float {
+            if n == which {
+                match x {
+                    V::F32(f) => *f = if high { 3.0e38 } else { -3.0e38 },
+                    V::F64(f) => *f = if high { 1.0e300 } else { -1.0e300 },
+                    _ => {
+                        let (lo, hi) = int_bounds(x);
+                        int_set(x, if high { hi } else { lo });
+                    }
+                }
+            }
+            n += 1;
+        }
+    });
+}
+
 pub fn mut_int(v: &mut V, rng: &mut Rng) {
     let (lo, hi) = int_bounds(v);
     let cur = int_get(v);
